@@ -45,7 +45,9 @@ pub fn check(t: &Trace<'_>, out: &mut CaseOut) -> bool {
                 let on_the_wire = sn.tx.control.iter().any(|c| c.kind == 12 && matches!(c.state, minimq::verif::VerifSend::Flush));
                 let due = sn.next_ping.is_some_and(|np| np <= o.t_call) && sn.ping_timeout.is_none() && !on_the_wire;
                 let consumed = w.events[o.ev_call..o.ev_ret].iter().any(|e| matches!(e, Ev::Consumed { .. }));
-                let busy = w.events[o.ev_call..o.ev_ret].iter().any(|e| matches!(e, Ev::SlowWrite { .. } | Ev::Io { ans: IoAns::Err(_) | IoAns::Eof | IoAns::Zero, .. }));
+                // (a send buffer that is full - a write that pends without having been asked to - is a
+                // transport that does not accept writes)
+                let busy = w.events[o.ev_call..o.ev_ret].iter().any(|e| matches!(e, Ev::SlowWrite { .. } | Ev::Io { ans: IoAns::Err(_) | IoAns::Eof | IoAns::Zero, .. } | Ev::Io { kind: crate::world::IoKind::Write, ans: IoAns::Pending(crate::world::PendWhy::ReadEmpty), .. }));
                 let fits = ci.mps.is_none_or(|m| m >= 2 && sn.tx.retained.iter().all(|e| e.len <= m as usize));
                 if due && !consumed && !busy && fits && o.t_ret > o.t_call {
                     out.count("waits_that_began_with_a_ping_due", 1);
@@ -147,7 +149,9 @@ pub fn check(t: &Trace<'_>, out: &mut CaseOut) -> bool {
         let busy_all: Vec<(u64, u64)> = w.events.iter().filter_map(|e| match e { Ev::SlowWrite { conn, from, to } if *conn == ci.idx => Some((*from, *to)), _ => None }).collect();
         let disc: Vec<&&OpRec> = ops.iter().filter(|o| o.outcome == Outcome::Err(ErrRepr::Disconnected) && o.live_before).collect();
         let external_cause = |o: &OpRec| {
-            w.events[o.ev_call..o.ev_ret].iter().any(|e| {
+            // (the application itself closed the connection: a disconnect() was called on it
+            // before - unless it was refused locally, in which case nothing was begun)
+            ops.iter().any(|x| x.kind == "disconnect" && x.ev_call < o.ev_call && !matches!(x.outcome, Outcome::Err(ErrRepr::BufferTooSmall | ErrRepr::PacketTooLarge | ErrRepr::InvalidRequest))) || w.events[o.ev_call..o.ev_ret].iter().any(|e| {
                 matches!(e, Ev::Io { ans: IoAns::Eof | IoAns::Err(_), .. }) || matches!(e, Ev::Consumed { conn, idx } if matches!(w.conns[*conn].in_pkts[*idx].pkt, Some(SPacket::Disconnect { .. })))
             })
         };
